@@ -3,6 +3,8 @@
 From Coq Require Import ZArith List Bool PrimFloat.
 Import ListNotations.
 Require Import PyBase Solver SolverFacts SolverF SolverExamples.
+Require Import SolveAll SolveAllFacts SolveAllSpan SolveAllSpanFacts SolveAllSpanFacts2 SolveAllPeriod SolveAllPeriodFacts
+               SolveAllF SolveAllExamples SolveAllSpanExamples SolveAllExamples3.
 Open Scope Z_scope.
 
 Section C02.
@@ -128,6 +130,71 @@ Section C02.
   Proof. exact (solve_t_maxiter0 num sub absf ltb isfin zero ev before after d o t s p v1). Qed.
 End C02.
 
+(* ---- solve_period: label -> position -> solve_t, end to end.  The lookup is the model of VectorContainer._locate_period_in_span
+   over the regenerated method list: list / tuple / range (.index), NumPy array (fallback), pandas Index (get_loc), and a
+   quarterly pandas PeriodIndex (Period objects and their full strings; year strings are rejected) ---- *)
+Section C02period.
+  Variable num : Type.
+  Variables (sub : num -> num -> num) (absf : num -> num) (ltb : num -> num -> bool)
+            (isfin : num -> bool) (zero : num).
+  Variables (ev before after : hook num).
+  Notation solve_t_M := (solve_t_M num sub absf ltb isfin zero ev before after).
+  Notation solve_period_M loc := (solve_period_M num sub absf ltb isfin zero ev before after Z loc).
+
+  (* a label carried by exactly one period (other labels may repeat): solve_period(label) IS solve_t(position), on every span type *)
+  Theorem C02_solve_period_eq_solve_t k span d o lab i s :
+    nth_error span i = Some lab -> count_of lab span = 1%nat ->
+    solve_period_M (locate_span k span) d o lab s = solve_t_M d o (Z.of_nat i) s.
+  Proof. exact (solve_period_unique_label num sub absf ltb isfin zero ev before after k span d o lab i s). Qed.
+  (* quarterly PeriodIndex: a Period object or its full string *)
+  Theorem C02_solve_period_eq_solve_t_period_index span d o lab i s :
+    NoDup span -> (forall z, In z span -> 0 <= z) -> nth_error span i = Some lab ->
+    solve_period_M (locate_qindex span) d o lab s = solve_t_M d o (Z.of_nat i) s.
+  Proof. exact (solve_period_qindex num sub absf ltb isfin zero ev before after span d o lab i s). Qed.
+  (* a label that is unknown, or (NumPy / pandas) carried by several periods, or a year string on a quarterly PeriodIndex:
+     KeyError and nothing changes *)
+  Theorem C02_solve_period_unknown_label k span d o lab s :
+    ~ In lab span -> solve_period_M (locate_span k span) d o lab s = (s, Raise KeyError).
+  Proof. exact (solve_period_unknown_every_span num sub absf ltb isfin zero ev before after k span d o lab s). Qed.
+  Theorem C02_solve_period_repeated_label k span d o lab s :
+    (2 <= count_of lab span)%nat -> k <> SpList -> solve_period_M (locate_span k span) d o lab s = (s, Raise KeyError).
+  Proof. exact (solve_period_repeated_label num sub absf ltb isfin zero ev before after k span d o lab s). Qed.
+  Theorem C02_solve_period_year_string span d o y s :
+    0 < y -> solve_period_M (locate_qindex span) d o (year_key y) s = (s, Raise KeyError).
+  Proof. exact (solve_period_year_keyerror num sub absf ltb isfin zero ev before after span d o y s). Qed.
+
+  (* the complete equation of C02_finite_spec for solve_period(label): passes k = 1, 2, ... until the first
+     k in [max(1,min_iter), max_iter] at which every check variable moved by < tol; '.', iterations = k, True, hooks once each —
+     or 'F', iterations = max_iter, False / NonConvergenceError *)
+  Theorem C02_solve_period_finite_spec k span d o lab i s v1 :
+    nth_error span i = Some lab -> count_of lab span = 1%nat -> length (status s) = length span ->
+    min_iter o <= max_iter o -> 0 <= max_iter o ->
+    feasible d (length (status s)) i = true -> offset o = 0 ->
+    let t := Z.of_nat i in
+    let c0 := get_check num zero d (vals_of s) i in
+    let N := Z.to_nat (max_iter o) in
+    before t (errors o) (catch_first o) 0%nat (vals_of s) = (v1, None) ->
+    (forall j, (1 <= j <= N)%nat -> snd (evk num ev o t j (st_after num ev o t v1 (j - 1))) = None) ->
+    (forall j, (j <= N)%nat -> all_finite num isfin (chkseq num zero ev d o t i c0 v1 j) = true) ->
+    solve_period_M (locate_span k span) d o lab s =
+    match find_first (convk num sub absf ltb zero ev d o t i c0 v1) 1 N with
+    | Some k0 =>
+        match afterk num after o t k0 (st_after num ev o t v1 k0) with
+        | (v'', Some c) =>
+            (mkState v'' (status s) (iters s) (log s ++ [EvBefore t] ++ pass_events t 1 k0 ++ [EvAfter t k0]),
+             Raise (SolutionError (Some c)))
+        | (v'', None) =>
+            (mkState v'' (upd i Solved (status s)) (upd i (Z.of_nat k0) (iters s))
+                     (log s ++ [EvBefore t] ++ pass_events t 1 k0 ++ [EvAfter t k0]), Ret true)
+        end
+    | None =>
+        (mkState (st_after num ev o t v1 N) (upd i Failed (status s)) (upd i (max_iter o) (iters s))
+                 (log s ++ [EvBefore t] ++ pass_events t 1 N),
+         if fail_raise o then Raise NonConvergenceError else Ret false)
+    end.
+  Proof. exact (solve_period_finite_spec num sub absf ltb isfin zero ev before after k span d o lab i s v1). Qed.
+End C02period.
+
 Print Assumptions C02_min_gt_max_rejected.
 Print Assumptions C02_offset_out_of_span_rejected.
 Print Assumptions C02_infeasible_period_rejected.
@@ -136,5 +203,14 @@ Print Assumptions C02_converges_at_least_k.
 Print Assumptions C02_fails_when_no_k.
 Print Assumptions C02_finite_spec.
 Print Assumptions C02_maxiter0.
+Print Assumptions C02_solve_period_eq_solve_t.
+Print Assumptions C02_solve_period_eq_solve_t_period_index.
+Print Assumptions C02_solve_period_unknown_label.
+Print Assumptions C02_solve_period_repeated_label.
+Print Assumptions C02_solve_period_year_string.
+Print Assumptions C02_solve_period_finite_spec.
+Print Assumptions exA_solve_period.
+Print Assumptions exS_repeated_label.
+Print Assumptions exP_period_index.
 Print Assumptions ex_hypotheses_satisfiable.
 Print Assumptions ex_infeasible_rejected.
